@@ -628,9 +628,21 @@ def _establish(ctx: Ctx) -> None:
            construct="len(h) = UB + 1")
     # j_from_ode guards
     jf = repo.func(M + "dynamic_control.ode", "j_from_ode")
-    g = [ast.unparse(nd.test) for nd in ast.walk(jf.node)
-         if isinstance(nd, ast.If)]
-    ok = "len(ode) <= 1" in g
+    from sa.casesplit import equivalent
+    from sa.kern import make_evaluator, py_calls
+    from sa.symterm import Env, Poly, Unsupported
+    jev = make_evaluator(repo, jf, extra_call=py_calls)
+    rows = Poly.atom(("app", "len", (Poly.var(jf.params[0]),)))
+    ok = False
+    for nd in ast.walk(jf.node):
+        if isinstance(nd, ast.If) and nd.body and isinstance(
+                nd.body[-1], ast.Return):
+            try:
+                c = jev.cond(Env(), nd.test)
+            except Unsupported:
+                continue
+            # integer row counts: len < 2, len <= 1, not len > 1 ... alike
+            ok = ok or equivalent(c, ("le", rows, Poly.const(1)))[0]
     ctx.ob(R, jf, jf.node, ok, "j_from_ode returns early unless the "
            "simulation has at least two rows",
            construct="j_from_ode row guard", nontrivial=False)
